@@ -81,7 +81,7 @@ OPNAMES = {'Shr': ('OpShr', 'shr'), 'Add': ('OpAdd', 'add'), 'Sub': ('OpSub', 's
 
 def opimpl(file, trait, self_ty, fname, self_name, self_type, rhs_type, out_type, req, ens, labels=None,
            impl_generics='', fn_generics='', self_args=None, nth=None, props=(), rules=None, closures=None, loops=None,
-           proofs=(), status='P', where_add='', mirror=None):
+           proofs=(), status='P', where_add='', mirror=None, rhs_name='rhs'):
     """An operator impl of /repo (`impl <trait><Rhs> for <Self> { fn <method>(self, rhs) {..} }`).
     Its body is extracted as the free function `fname` (receiver renamed: rule T11) and verified
     against (req => ens).  The dispatch-trait impl used by rewritten operator sites (T3) is a one-line
@@ -89,7 +89,8 @@ def opimpl(file, trait, self_ty, fname, self_name, self_type, rhs_type, out_type
     any function reachable from a trait impl method."""
     optrait, m = OPNAMES[trait]
     r = dict(rules or {})
-    r['self_rename'] = [self_name, self_type]
+    import re as _re
+    r['self_rename'] = [self_name, _re.sub(r"'\w+\s+", '', self_type)]
     sub = dict(r.get('subst', {})); sub['Self::Output'] = out_type; r['subst'] = sub
     reqs = [req] if isinstance(req, str) else list(req)
     enss = [ens] if isinstance(ens, str) else list(ens)
@@ -102,13 +103,13 @@ def opimpl(file, trait, self_ty, fname, self_name, self_type, rhs_type, out_type
     raw("""
 impl%s %s<%s> for %s {
     type Output = %s;
-    open spec fn %s_req(self, rhs: %s) -> bool { let %s = self; %s }
-    open spec fn %s_ens(self, rhs: %s, r: %s) -> bool { let %s = self; %s }
+    open spec fn %s_req(self, rhs: %s) -> bool { let %s = self; let %s = rhs; %s }
+    open spec fn %s_ens(self, rhs: %s, r: %s) -> bool { let %s = self; let %s = rhs; %s }
     #[verifier::external_body]
     fn op_%s(self, rhs: %s) -> (r: %s) { %s(self, rhs) }
 }
-""" % (impl_generics, optrait, rhs_type, self_type, out_type, m, rhs_type, self_name, conj(reqs),
-       m, rhs_type, out_type, self_name, conj(enss), m, rhs_type, out_type, fname), tag='T3-glue:' + fname)
+""" % (impl_generics, optrait, rhs_type, self_type, out_type, m, rhs_type, self_name, rhs_name if rhs_name != 'rhs' else '_rhs_same', conj(reqs),
+       m, rhs_type, out_type, self_name, rhs_name if rhs_name != 'rhs' else '_rhs_same', conj(enss), m, rhs_type, out_type, fname), tag='T3-glue:' + fname)
 
 def G(at, text):
     """ghost statements placed verbatim (not wrapped in a proof block), e.g. `let ghost x = ..;`"""
